@@ -33,6 +33,7 @@ func propC07(c *Ctx) {
 	c.ruleDirectiveTrace()
 	c.ruleNoRewrap()
 	c.ruleErrorOnOwnDirective("C07-ERROR-ON-OWN-DIRECTIVE")
+	c.ruleBlamedType("C07-BLAMED-TYPE")
 	c.ruleMemoKey()
 	// line numbers are counted in the file's bytes: nothing may rewrite them in place (a normaliser that works on the
 	// slice it was given shifts every later line)
